@@ -108,11 +108,53 @@ _IDENTITY_CALLS = {'uid.UID', 'UID', 'pydicom.uid.UID', 'six.text_type', 'six.bi
                    'six.ensure_text'}
 
 
+class Lazy:
+    """The value of ``filter(..)`` / ``map(..)`` / a generator expression: an iterator object.  It is true whatever it will
+    yield, has no len(), and can be gone through once."""
+    def __init__(self, items):
+        self._items = list(items)
+        self._used = False
+
+    def __iter__(self):
+        if self._used:
+            return iter(())
+        self._used = True
+        return iter(self._items)
+
+    def __bool__(self):
+        return True
+
+
 def eval_value(e: ast.AST, env: Dict[str, Any]) -> Any:
     """Constant folding of a conversion term over bytes / str / int constants (whitelisted pure builtins only).
     Exceptions a conversion would raise on that constant (UnicodeError, ValueError, IndexError) propagate."""
     if isinstance(e, ast.Expression):
         return eval_value(e.body, env)
+    if isinstance(e, ast.ListComp):
+        return list(eval_iter(e, env))
+    if isinstance(e, ast.GeneratorExp):
+        return Lazy(eval_iter(e, env))
+    if isinstance(e, ast.Call) and isinstance(e.func, ast.Name) and e.func.id in ('filter', 'map') and len(e.args) == 2 and not e.keywords:
+        seq = eval_value(e.args[1], env)
+        if not isinstance(seq, (list, tuple, Lazy)):
+            raise CannotEvaluate('%s over %s' % (e.func.id, type(seq).__name__))
+        f = e.args[0]
+        if isinstance(f, ast.Constant) and f.value is None and e.func.id == 'filter':
+            return Lazy(x for x in seq if x)
+        if isinstance(f, ast.Name) and f.id in ('bool', 'int', 'abs'):
+            fn_ = {'bool': bool, 'int': int, 'abs': abs}[f.id]
+            return Lazy((x for x in seq if fn_(x)) if e.func.id == 'filter' else (fn_(x) for x in seq))
+        if isinstance(f, ast.Lambda) and len(f.args.args) == 1 and not (f.args.vararg or f.args.kwarg or f.args.kwonlyargs or f.args.defaults):
+            p_ = f.args.args[0].arg
+            vals = [(x, eval_value(f.body, dict(env, **{p_: x}))) for x in seq]
+            return Lazy((x for x, v in vals if v) if e.func.id == 'filter' else (v for x, v in vals))
+        raise CannotEvaluate('%s function' % e.func.id)
+    if isinstance(e, ast.Call) and isinstance(e.func, ast.Name) and e.func.id in ('list', 'tuple', 'sorted', 'any', 'all', 'sum', 'set', 'frozenset') \
+            and len(e.args) == 1 and not e.keywords:
+        seq = eval_value(e.args[0], env)
+        if not isinstance(seq, (list, tuple, Lazy, range, set, frozenset)):
+            raise CannotEvaluate('%s of %s' % (e.func.id, type(seq).__name__))
+        return {'list': list, 'tuple': tuple, 'sorted': sorted, 'any': any, 'all': all, 'sum': sum, 'set': set, 'frozenset': frozenset}[e.func.id](seq)
     if isinstance(e, ast.Constant):
         return e.value
     if isinstance(e, (ast.Name, ast.Attribute)):
